@@ -329,8 +329,8 @@ def obligations(tier):
         add("_tucker:non_negative_tucker", f"N={N},plain", tk_setup(N), lambda I: run_nntucker(_tk.non_negative_tucker, I, (0, 3), dict(return_errors=True)), nntucker_post, dict(order=N, options="plain"))
         add("_tucker:non_negative_tucker", f"N={N},normalize_factors", tk_setup(N), lambda I: run_nntucker(_tk.non_negative_tucker, I, (0, 3), dict(return_errors=True, normalize_factors=True)),
             nntucker_post, dict(order=N, options="normalize_factors"), side_nonzero=True)
-        for algo in ("fista", "active_set"):
-            def call(I, algo=algo):
+        for algo, extra in (("fista", {}), ("active_set", {}), ("fista", dict(sparsity_coefficients=[0.3] * N, core_sparsity_coefficient=0.2))):
+            def call(I, algo=algo, extra=extra):
                 S = I["_S"]
                 def hals_stub(UtM, UtU, V=None, **kw):
                     if S.name == "sym":
@@ -356,9 +356,9 @@ def obligations(tier):
                     S.record("SIGMA", r[1][0])
                     return r
                 with stubbed(tl_, truncated_svd=tsvd_stub):
-                    return run_nntucker(_tk.non_negative_tucker_hals, I, (0, 3), dict(return_errors=True, algorithm=algo),
+                    return run_nntucker(_tk.non_negative_tucker_hals, I, (0, 3), dict(return_errors=True, algorithm=algo, **extra),
                                         extra_stubs=dict(hals_nnls=hals_stub, fista=fista_stub, active_set_nnls=as_stub))
-            add("_tucker:non_negative_tucker_hals", f"N={N},{algo}", tk_setup(N), call, nntucker_post, dict(order=N, options=algo))
+            add("_tucker:non_negative_tucker_hals", f"N={N},{algo}" + (",sparsity coefficients" if extra else ""), tk_setup(N), call, nntucker_post, dict(order=N, options=algo, sparsity=bool(extra)))
     # ====================================================================== randomised CP (sampled ALS): explicit residual norm
     class _Idx:
         def __init__(self, t):
